@@ -171,3 +171,72 @@ def value_sources(fn, e, at_ev, depth=4):
         else:
             out.append(x)
     return out, entry
+
+
+def derives(fn, e, at_ev, pred, depth=4):
+    """every source the value of `e` at `at_ev` may come from (through local
+    variables) satisfies pred(tree) and no function-entry value reaches"""
+    srcs, entry = value_sources(fn, e, at_ev, depth)
+    if not srcs:
+        return False
+    for x in srcs:
+        if x.get('k') in ('update', 'uninit', 'outparam'):
+            return False
+        if x.get('k') == 'var' and x.get('sc') in ('l',):
+            return False
+        if not pred(x):
+            return False
+    return True
+
+
+def some_source(fn, e, at_ev, pred, depth=4):
+    srcs, _entry = value_sources(fn, e, at_ev, depth)
+    return any(x.get('k') not in ('update', 'uninit', 'outparam') and pred(x) for x in srcs)
+
+
+def last_event_of_block(fn, bid):
+    b = fn.blocks[bid]
+    return b.events[-1] if b.events else None
+
+
+ATOMIC_CALLS = ('qb_atomic_int_add', 'qb_atomic_int_exchange_and_add', 'qb_atomic_int_get', 'qb_atomic_int_set',
+                'qb_atomic_int_compare_and_exchange', 'qb_atomic_int_get_ex', 'qb_atomic_int_set_ex')
+
+
+def refcount_op(e, rec=None, field=None):
+    """classify a call node operating on an atomic counter field:
+    returns (kind, fieldpair) with kind in inc/dec/get/set/add/cas or None.
+    (qb_atomic_int_inc / _dec_and_test are macros over add / exchange_and_add)"""
+    e = unwrap(e)
+    if not isinstance(e, dict) or e.get('k') != 'call':
+        return None
+    c = callee_of(e)
+    if c not in ATOMIC_CALLS or not e.get('args'):
+        return None
+    tgt = unwrap(e['args'][0])
+    if tgt.get('k') == 'addr':
+        tgt = unwrap(tgt['e'])
+    lf = last_field(tgt)
+    if lf is None:
+        return None
+    if (rec is not None and lf[0] != rec) or (field is not None and lf[1] != field):
+        return None
+    if c in ('qb_atomic_int_add', 'qb_atomic_int_exchange_and_add'):
+        d = cval(unwrap(e['args'][1])) if len(e['args']) > 1 else None
+        kind = 'inc' if d == 1 else 'dec' if d == -1 else 'add'
+    elif c.startswith('qb_atomic_int_get'):
+        kind = 'get'
+    elif c.startswith('qb_atomic_int_set'):
+        kind = 'set'
+    else:
+        kind = 'cas'
+    return (kind, lf)
+
+
+def dec_and_test_atom(a, rec=None, field=None):
+    """atom says: the atomic decrement brought the counter to zero"""
+    for (x, y) in ((a.l, a.r), (a.r, a.l)):
+        op = refcount_op(x, rec, field)
+        if op and op[0] == 'dec' and a.op == '==' and cval(unwrap(y)) == 1:
+            return True
+    return False
